@@ -5,8 +5,8 @@
    compares (correspondence tags 1..9), evaluates the property itself on the implementation's
    outputs (oracle tags 11..29) and reports which guard conjuncts are false (51..69).
    A code in the result is  100 * step + tag  (step 0 = the start model). *)
-From Coq Require Import List Bool Arith NArith.
-From PV Require Import Base.PyData C08.Model.
+From Coq Require Import QArith List Bool Arith NArith PArith.
+From PV Require Import Base.PyData Base.Expr Base.Interp Base.Stmts C08.Model.
 Import ListNotations.
 Local Open Scope nat_scope.
 
@@ -15,9 +15,22 @@ Record ostep := mkStep {
   o_res : res graph;                   (* real outcome; Crash CStmt = exception from the statement layers *)
   o_det : detected;                    (* the real detectors on the real result (when Ok) *)
   o_again : option (res graph);        (* the same request applied once more to the result *)
-  o_undo : option (req * res graph)    (* an undo request applied to the result *)
+  o_undo : option (req * res graph);   (* an undo request applied to the result *)
+  o_again_st : option (list stmt * list stmt)   (* model.statements of the result and of the result of the second application *)
 }.
-Record case := mkCase { c_g0 : graph; c_det0 : detected; c_steps : list ostep }.
+Record case := mkCase { c_g0 : graph; c_det0 : detected; c_steps : list ostep;
+                        c_envs : list (list (id * Q)) (* sample points for comparing statements by evaluation *) }.
+
+(* two statement lists that define the same symbols give every one of them the same value at the
+   sample points (sequential execution, the ODE solution being a fixed function of the values of the
+   system's right-hand-side symbols): 0 agree, 1 disagree, 2 inconclusive (too few defined points),
+   3 not comparable this way: the second application renamed / re-created a parameter (add_lag_time
+   twice gives MDT1 for MDT) — the same function only up to renaming *)
+Definition same_function (envs : list (list (id * Q))) (l1 l2 : list stmt) : nat :=
+  let d1 := flat_map defs l1 in
+  let d2 := flat_map defs l2 in
+  if negb (setp_eqb d1 d2) then 3
+  else summarize 2 (flat_map (fun m => map (fun x => cmp_oq (run m l1 x) (run m l2 x)) (normp d1)) envs).
 
 Definition oname_eqb (a b : option name) : bool :=
   match a, b with Some x, Some y => name_eqb x y | None, None => true | _, _ => false end.
@@ -75,7 +88,7 @@ Definition guard_tags (f : req) (s : sk) : list nat :=
 
 
 (* the property itself, on the implementation's own outputs *)
-Definition oracle (f : req) (g : graph) (s : sk) (o : ostep) : list nat :=
+Definition oracle (envs : list (list (id * Q))) (f : req) (g : graph) (s : sk) (o : ostep) : list nat :=
   match o_res o with
   | Crash c => if crash_eqb c CStmt then [12] else [11]
   | Refuse => tag (refusal_documented f s) 18
@@ -90,7 +103,11 @@ Definition oracle (f : req) (g : graph) (s : sk) (o : ostep) : list nat :=
               | Some (Ok r2) => tag (geqb r2 r) 16
               | Some _ => [16]
               | None => []
-              end)
+              end
+              ++ match o_again_st o with
+                 | Some (l1, l2) => match same_function envs l1 l2 with 0 => [] | 1 => [19] | 2 => [91] | _ => [92] end
+                 | None => []
+                 end)
           ++ match o_undo o, undo_of f s with
              | Some (f', ur), Some f'' =>
                  if req_eqb f' f'' && guard f' s'
@@ -100,7 +117,7 @@ Definition oracle (f : req) (g : graph) (s : sk) (o : ostep) : list nat :=
       end
   end.
 
-Definition step_verdict (g : graph) (o : ostep) : list nat :=
+Definition step_verdict (envs : list (list (id * Q))) (g : graph) (o : ostep) : list nat :=
   let f := o_req o in
   (* the graph part of the setters is claimed (and compared) on skeleton-shaped systems — valid or
      not; on the anomalous systems that the defects produce only the detectors are compared: there
@@ -112,18 +129,18 @@ Definition step_verdict (g : graph) (o : ostep) : list nat :=
      | _ => []
      end
   ++ match skeleton_of g with
-     | Some s => corr_step f s (o_res o) ++ oracle f g s o ++ guard_tags f s
+     | Some s => corr_step f s (o_res o) ++ oracle envs f g s o ++ guard_tags f s
      | None => [71]
      end.
 
-Fixpoint steps_verdict (i : nat) (g : graph) (l : list ostep) : list nat :=
+Fixpoint steps_verdict (envs : list (list (id * Q))) (i : nat) (g : graph) (l : list ostep) : list nat :=
   match l with
   | [] => []
   | o :: tl =>
-      map (fun t => 100 * i + t) (step_verdict g o)
-      ++ match o_res o with Ok r => steps_verdict (S i) r tl | _ => [] end
+      map (fun t => 100 * i + t) (step_verdict envs g o)
+      ++ match o_res o with Ok r => steps_verdict envs (S i) r tl | _ => [] end
   end.
 
 Definition verdict (c : case) : list nat :=
   (if in_domain (c_g0 c) then tag (det_eqb (detect (c_g0 c)) (c_det0 c)) 1 else [70])
-  ++ steps_verdict 1 (c_g0 c) (c_steps c).
+  ++ steps_verdict (c_envs c) 1 (c_g0 c) (c_steps c).
